@@ -28,7 +28,7 @@ def _drive(spans: dict, order: list[str], async_flag: bool, groups: dict, rename
 
 
 def _drive_many(traces: list[tuple[dict, list[str]]], async_flag: bool, groups: dict,
-                rename: dict):
+                rename: dict, collect_first: bool = False):
     """One call of the real sequencer over several traces (the way otel_to_pv uses it)."""
     from tel2puml.otel_to_pv.otel_to_pv_types import OTelEvent, OTelEventTypeMap
     from tel2puml.otel_to_pv.sequence_otel import sequence_otel_job_id_streams
@@ -41,6 +41,10 @@ def _drive_many(traces: list[tuple[dict, list[str]]], async_flag: bool, groups: 
     ] for spans, order in traces]
     rn = {t: OTelEventTypeMap(mapped_event_type=m, child_event_types=set(c))
           for t, (m, c) in rename.items()} or None
+    if collect_first:
+        # a consumer that first collects the per-trace generators and reads them afterwards
+        gens = list(sequence_otel_job_id_streams(streams, async_flag, groups or None, rn))
+        return [list(g) for g in gens]
     out = []
     for job in sequence_otel_job_id_streams(streams, async_flag, groups or None, rn):
         out.append(list(job))
@@ -137,14 +141,14 @@ def run_chunk(case: dict) -> dict:
     def bump(k: str) -> None:
         counts[k] = counts.get(k, 0) + 1
 
-    def record(verdict: str, detail, spans, root, async_flag, groups, rename, order):
+    def record(verdict: str, detail, spans, root, async_flag, groups, rename, order, call=None):
         bump(verdict.split(":")[0] if not verdict.startswith("skip") else verdict)
         if verdict.startswith("violated") and len(fails) < 5:
             fails.append({"symptom": verdict[9:], "detail": detail,
                           "case": {"spans": spans, "root": root, "async": async_flag,
                                    "groups": groups,
                                    "rename": {k: [m, sorted(c)] for k, (m, c) in rename.items()},
-                                   "order": order}})
+                                   "order": order, "call": call}})
 
     if case["kind"] == "exh":
         it = refseq.exhaustive_cases(case["n"], case["grid"])
@@ -174,7 +178,7 @@ def run_chunk(case: dict) -> dict:
             bump("mode:" + ("async" if async_flag else "sync") + ("+groups" if groups else "")
                  + ("+rename" if rename else ""))
             record(v, d, spans, root, async_flag, groups, rename, order)
-            if (rename or groups) and len(spans) >= 2 and rng.random() < 0.3:
+            if len(spans) >= 2 and rng.random() < (0.3 if (rename or groups) else 0.06):
                 # several traces of the workflow in ONE call, as otel_to_pv does: the trace
                 # itself, a twin with other types and one without any renamable type
                 alpha = sorted({s["type"] for s in spans.values()} | set(rename) | set(groups))
@@ -187,11 +191,16 @@ def run_chunk(case: dict) -> dict:
                     traces.append((sp2, f"{tag}-{root}", o2))
                 rng.shuffle(traces)
                 try:
-                    jobs = _drive_many([(t[0], t[2]) for t in traces], async_flag, groups, rename)
+                    collect = rng.random() < 0.5
+                    bump("multi_trace_calls_collect_then_read" if collect
+                         else "multi_trace_calls_read_in_order")
+                    jobs = _drive_many([(t[0], t[2]) for t in traces], async_flag, groups, rename,
+                                       collect_first=collect)
                     by_job = {j[0]["jobId"]: j for j in jobs if j}
+                    call = {"traces": [[t[0], t[1], t[2]] for t in traces], "collect_first": collect}
                     if len(jobs) != len(traces) or len(by_job) != len(traces):
                         v, d = "violated:multi-trace:job-count", {"jobs": len(jobs)}
-                        record(v, d, spans, root, async_flag, groups, rename, order)
+                        record(v, d, spans, root, async_flag, groups, rename, order, call)
                     else:
                         for sp_i, root_i, o_i in traces:
                             jid = next(iter(sp_i.values()))["job_id"]
@@ -203,10 +212,13 @@ def run_chunk(case: dict) -> dict:
                                          traces_in_call=len(traces))
                             n_eval += 1
                             bump("multi_trace_call_jobs")
-                            record(v, d, sp_i, root_i, async_flag, groups, rename, o_i)
+                            record(v, d, sp_i, root_i, async_flag, groups, rename, o_i,
+                                   call if v.startswith("violated") else None)
                 except Exception as exc:  # noqa: BLE001 - the sequencer is code under test
                     record(f"violated:multi-trace:exception:{type(exc).__name__}",
-                           {"exc": repr(exc)[:300]}, spans, root, async_flag, groups, rename, order)
+                           {"exc": repr(exc)[:300]}, spans, root, async_flag, groups, rename, order,
+                           {"traces": [[t[0], t[1], t[2]] for t in traces],
+                            "collect_first": collect})
             key = core.digest([[s["type"], s["parent"], s["start"], s["end"]]
                                for s in spans.values()] + [async_flag, groups, sorted(rename)])
             if len(spans) > 1:
@@ -302,7 +314,7 @@ def replay(path: str) -> int:
         data = json.load(fh)
     c = data["case"]
     case = {"spans": c["spans"], "root": c["root"], "async": c["async"], "groups": c["groups"],
-            "rename": c["rename"], "order": c["order"]}
+            "rename": c["rename"], "order": c["order"], "call": c.get("call")}
     results, notes = core.run_workers("checks.c08", "run_replay", [case], nproc=1)
     print(json.dumps(results, indent=1)[:3000])
     bad = any(r.get("verdict", "").startswith("violated") for r in results)
@@ -313,6 +325,25 @@ def replay(path: str) -> int:
 
 def run_replay(case: dict) -> dict:
     rename = {k: (m, c) for k, (m, c) in case["rename"].items()}
+    call = case.get("call")
+    if call:
+        # the violation was seen in ONE sequencer call over several traces: repeat that call
+        try:
+            jobs = _drive_many([(t[0], t[2]) for t in call["traces"]], case["async"],
+                               case["groups"], rename, collect_first=call["collect_first"])
+        except Exception as exc:  # noqa: BLE001
+            return {"status": "ok", "verdict": f"violated:multi-trace:exception:{type(exc).__name__}",
+                    "detail": repr(exc)[:300]}
+        by_job = {j[0]["jobId"]: j for j in jobs if j}
+        if len(jobs) != len(call["traces"]) or len(by_job) != len(call["traces"]):
+            return {"status": "ok", "verdict": "violated:multi-trace:job-count", "detail": None}
+        for sp_i, root_i, o_i in call["traces"]:
+            jid = next(iter(sp_i.values()))["job_id"]
+            v, d = judge(sp_i, root_i, case["async"], case["groups"], rename, o_i,
+                         pv=by_job.get(jid, []))
+            if v.startswith("violated"):
+                return {"status": "ok", "verdict": "violated:multi-trace:" + v[9:], "detail": d}
+        return {"status": "ok", "verdict": "held", "detail": None}
     v, d = judge(case["spans"], case["root"], case["async"], case["groups"], rename,
                  case["order"])
     return {"status": "ok", "verdict": v, "detail": d}
